@@ -545,6 +545,120 @@ fn sinput_case(input: &Value, reals: &[RealKey]) -> Value {
     json!({"steps": steps, "rrsets": rrsets, "entries": entries, "verify": verify})
 }
 
+/// MC_SignedOrder.tla: an RRset derived from the layout table reaches the
+/// signer (sign_rrset on the caller's slice, sign_sorted_rrset_in on
+/// From<Vec> and collect()ed collections, sign_sorted_zone_records on a zone
+/// holding it) and the validator (signed_data) in the case's arrival order.
+/// Observed: the octets handed to sign_raw / rebuilt, the order in which the
+/// collection stores the records, and two real Ed25519 signatures: one made
+/// here over the octets of the RFC construction (a foreign signer) checked
+/// through signed_data + verify_signed_data, one made by the library checked
+/// against the RFC construction's octets.
+fn order_case(input: &Value, reals: &[RealKey]) -> Value {
+    let recs = match records_of(&input["rrs"]) {
+        Ok(r) => r,
+        Err(e) => return json!({"bad_rrs": e}),
+    };
+    let soa = match records_of(&json!([input["soa"].clone()])) {
+        Ok(r) => r,
+        Err(e) => return json!({"bad_soa": e}),
+    };
+    let key_owner = name_of(&input["keyOwner"]);
+    let apex = name_of(&input["apex"]);
+    let flags = input["key"]["flags"].as_u64().unwrap_or(0) as u16;
+    let (inc, exp) = (ts(&input["inc"]), ts(&input["exp"]));
+    let rk = SigningKey::new(key_owner.clone(), flags, RecKey::of_json(&input["key"]));
+    let (ra, rb) = match sign_both(&rk, &recs, inc, exp) {
+        Ok(x) => x,
+        Err(e) => return json!({"sign_error": e}),
+    };
+    let rc = match sign_collected(&rk, &recs, inc, exp) {
+        Ok(x) => x,
+        Err(e) => return json!({"sign_error": e}),
+    };
+    let bufs = rk.raw_secret_key().take();
+    if bufs.len() != 3 || bufs[0] != bufs[1] || bufs[0] != bufs[2] || ra.data() != rb.data() || ra.data() != rc.data() {
+        return json!({"entry_points_disagree": bufs.iter().map(|b| jbytes(b)).collect::<Vec<_>>()});
+    }
+    // the zone signer on a collection that received the records in this order
+    let mut zone_recs = recs.clone();
+    zone_recs.extend(soa.iter().cloned());
+    let mut coll: Coll = SortedRecords::default();
+    for r in zone_recs {
+        if coll.insert(r).is_err() {
+            return json!({"insert_refused": true});
+        }
+    }
+    let code = recs[0].rtype();
+    let stored: Vec<Value> = coll.iter().filter(|r| r.rtype() == code && r.owner().name_eq(recs[0].owner()))
+        .map(|r| { let mut rd: Vec<u8> = vec![]; let _ = r.data().compose_canonical_rdata(&mut rd); jbytes(&rd) }).collect();
+    if let Err(e) = run_entry("zone_records", coll, &[], &apex, &rk, inc, exp) {
+        return json!({"entry_error": e});
+    }
+    // (of this RRset: the RR owner follows the RRSIG fields and the signer name)
+    let zprefix = 18 + key_owner.as_slice().len();
+    let lower_owner: Vec<u8> = recs[0].owner().as_slice().iter().map(|b| b.to_ascii_lowercase()).collect();
+    let zone: Vec<Vec<u8>> = rk.raw_secret_key().take().into_iter()
+        .filter(|b| b.len() >= 2 && u16::from_be_bytes([b[0], b[1]]) == code.to_int())
+        .filter(|b| b.get(zprefix..zprefix + lower_owner.len()) == Some(&lower_owner[..]))
+        .collect();
+    if zone.len() > 1 {
+        return json!({"zone_signed_twice": zone.len()});
+    }
+    // the validator
+    let mut vbuf: Vec<u8> = vec![];
+    if ra.data().signed_data(&mut vbuf, &mut recs.clone()[..]).is_err() {
+        return json!({"signed_data_error": true});
+    }
+    // real signatures
+    let Some(real) = realkeys::for_model(reals, 15, 32) else {
+        return json!({"no_real_key_of_algorithm": 15});
+    };
+    let dnskey = real.dnskey(flags);
+    let pair = match real.pair("direct", flags) {
+        Ok(p) => p,
+        Err(e) => return json!({"key_error": e}),
+    };
+    let foreign_data = bytes_of(&input["foreign"]);
+    let sk = SigningKey::new(key_owner.clone(), flags, pair);
+    let own = match sign_rrset(&sk, &Rrset::new_from_owned(&recs).expect("rrset"), inc, exp) {
+        Ok(x) => x,
+        Err(e) => return json!({"sign_error": format!("{e}")}),
+    };
+    // (the signed octets begin with the RRSIG fields, key tag included: a
+    // foreign signer of this key signs the same prefix with the real tag)
+    let mut own_buf: Vec<u8> = vec![];
+    let _ = own.data().signed_data(&mut own_buf, &mut recs.clone()[..]);
+    let prefix_len = 18 + key_owner.as_slice().len();
+    if foreign_data.len() < prefix_len || own_buf.len() < prefix_len {
+        return json!({"short_signed_data": true});
+    }
+    let mut fdata = own_buf[..prefix_len].to_vec();
+    fdata.extend_from_slice(&foreign_data[prefix_len..]);
+    let own_verifies_rfc = own.data().verify_signed_data(&dnskey, &fdata).is_ok();
+    let fsig = match sk.raw_secret_key().sign_raw(&fdata) {
+        Ok(s) => s,
+        Err(_) => return json!({"foreign_sign_error": true}),
+    };
+    let o = own.data();
+    let frr: SRrsig = Rrsig::new(o.type_covered(), o.algorithm(), o.labels(), o.original_ttl(), o.expiration(),
+                                 o.inception(), o.key_tag(), o.signer_name().clone(),
+                                 Bytes::copy_from_slice(fsig.as_ref())).expect("rrsig");
+    let mut rev = recs.clone();
+    rev.reverse();
+    let mut fb: Vec<u8> = vec![];
+    let foreign_verifies = frr.signed_data(&mut fb, &mut rev[..]).is_ok() && frr.verify_signed_data(&dnskey, &fb).is_ok();
+    json!({
+        "sig0": sig_fields(ra.data()),
+        "signer": jbytes(&bufs[0]),
+        "zone": jbytes(zone.first().map(|b| &b[..]).unwrap_or(&[])),
+        "validator": jbytes(&vbuf),
+        "stored": stored,
+        "foreign_verifies": foreign_verifies,
+        "own_verifies_rfc": own_verifies_rfc,
+    })
+}
+
 /// RFC 3110 layout: rsa_encode builds the public key field from exponent and
 /// modulus, rsa_exponent_modulus splits it again (refusing moduli shorter
 /// than the caller's minimum); the verifier takes the same key apart.
@@ -643,6 +757,7 @@ fn main() {
         Some("rsa") => rsa_case(input),
         Some("keyaccept") => keyaccept_case(input),
         Some("sinput") => sinput_case(input, reals()),
+        Some("order") => order_case(input, reals()),
         Some("alg") => alg_case(input, reals()),
         Some("ds") => ds_case(input),
         Some("nsec") => denial::nsec_case(input),
